@@ -6,6 +6,7 @@ import (
 	"errors"
 	"fmt"
 	"io"
+	"os"
 
 	"gitlab.com/gomidi/midi/v2/smf"
 
@@ -101,7 +102,10 @@ func decodeKey(got, want *ref.File) string {
 // C09: the Read schedule of the source is the adversary.
 
 type FragRead struct {
-	Src *FileSrc `json:"src"`
+	Src *FileSrc `json:"src,omitempty"`
+	// Raw, if set, is used instead of Src: arbitrary (corrupted) bytes; the result must not
+	// depend on fragmentation for them either.
+	Raw core.Hex `json:"raw,omitempty"`
 	// Cut >= 0 truncates the file to that many bytes first (truncated files are in scope).
 	Cut int `json:"cut"`
 	// Partitions are extra explicit fragment schedules (random ones drawn by the generator).
@@ -117,8 +121,20 @@ type fragWorld struct{}
 
 func (fragWorld) Gen(seed uint64, tier string) core.Scenario {
 	r := core.NewRand(seed)
-	s := &FragRead{Src: genFileSrc(r, tier), Cut: -1, Enumerate: true}
-	n := len(s.Src.produce().data)
+	s := &FragRead{Cut: -1, Enumerate: true}
+	if r.Chance(1, 4) {
+		// a corrupted file (same corruptions as the crash/corruption configuration)
+		for i := uint64(0); ; i++ {
+			c := (crashWorld{}).Gen(core.Mix(seed, 77+i), "quick").(*Crash)
+			if c.Mode == "raw" && len(c.Raw) > 0 && len(c.Raw) < 1500 {
+				s.Raw = c.Raw
+				break
+			}
+		}
+	} else {
+		s.Src = genFileSrc(r, tier)
+	}
+	n := len(s.bytes().data)
 	if n > 0 && r.Chance(1, 3) {
 		s.Cut = r.Intn(n)
 		n = s.Cut
@@ -133,14 +149,41 @@ func (fragWorld) Decode(raw json.RawMessage) (core.Scenario, error) {
 	if err := json.Unmarshal(raw, &s); err != nil {
 		return nil, err
 	}
-	if s.Src == nil {
+	if s.Src == nil && len(s.Raw) == 0 {
 		return nil, fmt.Errorf("no source")
 	}
 	return &s, nil
 }
-func (s *FragRead) Size() int { return s.Src.size() + len(s.Partitions) }
+
+// bytes produces the file of the scenario.
+func (s *FragRead) bytes() srcFile {
+	if len(s.Raw) > 0 {
+		rg := make([]string, len(s.Raw))
+		for i := range rg {
+			rg[i] = "corrupted-file"
+		}
+		return srcFile{data: s.Raw, regions: rg}
+	}
+	return s.Src.produce()
+}
+
+func (s *FragRead) Size() int {
+	if len(s.Raw) > 0 {
+		return len(s.Raw) + len(s.Partitions)
+	}
+	return s.Src.size() + len(s.Partitions)
+}
 func (s *FragRead) Shrinks(try func(core.Scenario) bool) bool {
-	if s.Src.shrinks(func(fs *FileSrc) bool {
+	if len(s.Raw) > 0 {
+		if core.ShrinkList([]byte(s.Raw), func(b []byte) bool {
+			c := *s
+			c.Raw = b
+			c.Only, c.Enumerate, c.Cut = nil, true, -1
+			return len(b) > 0 && try(&c)
+		}) {
+			return true
+		}
+	} else if s.Src.shrinks(func(fs *FileSrc) bool {
 		c := *s
 		c.Src = fs
 		if c.Only != nil { // the pinned schedule refers to the old byte layout
@@ -153,7 +196,7 @@ func (s *FragRead) Shrinks(try func(core.Scenario) bool) bool {
 	}
 	if s.Only == nil {
 		// pin the run to one schedule
-		n := len(s.Src.produce().data)
+		n := len(s.bytes().data)
 		if s.Cut >= 0 && s.Cut < n {
 			n = s.Cut
 		}
@@ -238,11 +281,12 @@ func describeOutcome(o readOutcome) string {
 }
 
 func (s *FragRead) Run(env *core.Env, st *core.Stats) (vs []core.Violation) {
-	sf := s.Src.produce()
+	sf := s.bytes()
 	if sf.bad != "" {
 		st.Probe("source-unusable")
 		return nil // the writer's defect is C01/C03's business
 	}
+	st.ProbeIf(len(s.Raw) > 0, "corrupted-file-as-source")
 	data := sf.data
 	if s.Cut >= 0 && s.Cut < len(data) {
 		data = data[:s.Cut]
@@ -312,6 +356,25 @@ func (s *FragRead) Run(env *core.Env, st *core.Stats) (vs []core.Violation) {
 		st.Fault("whole+eof-with-data")
 		if !try([]int{n}, true, "whole+eof") {
 			return vs
+		}
+		// a real operating-system pipe (*os.File that is not a regular file): whatever a
+		// library may special-case about files must not change the result
+		if pr, pw, err := os.Pipe(); err == nil {
+			go func() {
+				pw.Write(data)
+				pw.Close()
+			}()
+			// the *os.File itself is handed over (no wrapper), as a program reading stdin would
+			var o readOutcome
+			o.call = guarded(libBudget, false, func() { o.s, o.err = smf.ReadFrom(pr) })
+			pr.Close()
+			st.Eval(1)
+			st.Fault("os-pipe")
+			if sig := outcomeSig(o); sig != baseSig {
+				vs = append(vs, core.V("fragmentation-dependent", "os-pipe:"+base.kind()+"->"+o.kind(),
+					"the same bytes through an os.Pipe (*os.File): in-memory read gives %s, pipe read gives %s; file=%s", describeOutcome(base), describeOutcome(o), core.Trunc(core.HexStr(data), 300)))
+				return vs
+			}
 		}
 	}
 	for _, p := range s.Partitions {
